@@ -398,7 +398,7 @@ class TreeRec:
         self.pdepth = pd
 
     def _layer_getter_anoms(self, full):
-        """the per-depth list is published twice: get_node_list()[h] and get_layer_node_list(h) must be the same cells"""
+        """the per-depth list is published twice: get_node_list()[h] and get_layer_node_list(h) must hold the same cells (in any order)"""
         out = []
         getter = getattr(self.part, "get_layer_node_list", None)
         if getter is None:
@@ -408,7 +408,8 @@ class TreeRec:
             for h in range(len(nl)):
                 got = getter(h)
                 a, b = nl[h], got
-                same = a is b or (len(a) == len(b) and ((all(x is y for x, y in zip(a, b))) if full or len(a) <= 64 else (a[0] is b[0] and a[-1] is b[-1])))
+                # C03 speaks of the cells a list contains, not of their order within a depth: compare as multisets of objects
+                same = a is b or (len(a) == len(b) and sorted(map(id, a)) == sorted(map(id, b)))
                 if not same:
                     out.append(["layer-getter", h])
                     break
